@@ -92,7 +92,7 @@ def check(case):
     m = ev(node)
     if case.get('prefetch'):
         w, b = case['prefetch']
-        ok = w == 1 or (m.fidx and m.sized)
+        ok = w == 1 or (m.fidx and m.sized and not m.int_taint)
         if ok:
             np.random.seed(8)
             P = epochs(fresh(node).prefetch(w, b), 4)
